@@ -214,7 +214,7 @@ func checkC03(c *ProgCase) *Outcome {
 	return ok(len(classes) > 1, classes...)
 }
 
-var c03opt = gen.ProgOpt{Fuel: 4, Partial: true, Sugar: true, NonFinite: true, Maybe: true, Times: true, Harness: true, Poison: true, LazyValues: true}
+var c03opt = gen.ProgOpt{Fuel: 4, Partial: true, Sugar: true, NonFinite: true, Maybe: true, Times: true, Harness: true, Poison: true, LazyValues: true, Zones: true}
 
 var c03 = Register(&Prop[ProgCase]{ID: "C03", Name: "differential", Gen: genProgCase(c03opt, run.StdHarness), Check: checkC03})
 
